@@ -74,7 +74,7 @@ pub fn multi_fault_strategy(max_attempts: usize) -> impl Strategy<Value = FaultC
 		f.nth = nth;
 		f
 	});
-	(proptest::collection::vec(fault, 2..=5), any::<bool>(), any::<bool>(), 1..=max_attempts, any::<bool>()).prop_map(|(faults, previous_pair, kp_reuse, attempts, nonce_on_get)| FaultCase { faults, previous_pair, kp_reuse, attempts, nonce_on_get, hook_faults: vec![], file_hooks: false })
+	(proptest::collection::vec(fault, 2..=5), any::<bool>(), any::<bool>(), 1..=max_attempts, any::<bool>()).prop_map(|(faults, previous_pair, kp_reuse, attempts, nonce_on_get)| FaultCase { faults, previous_pair, kp_reuse, attempts, nonce_on_get, hook_faults: vec![], file_hooks: false, retry_after: None })
 }
 
 pub fn single_cases(tier: Tier) -> Vec<FaultCase> {
@@ -93,7 +93,7 @@ pub fn single_cases(tier: Tier) -> Vec<FaultCase> {
 			Tier::Thorough => vec![(true, false), (true, true), (false, false), (false, true)],
 		};
 		for (pp, kr) in variants {
-			out.push(FaultCase { faults: vec![f.clone()], previous_pair: pp, kp_reuse: kr, attempts: 1, nonce_on_get: false, hook_faults: vec![], file_hooks: false });
+			out.push(FaultCase { faults: vec![f.clone()], previous_pair: pp, kp_reuse: kr, attempts: 1, nonce_on_get: false, hook_faults: vec![], file_hooks: false, retry_after: None });
 		}
 	}
 	out
